@@ -94,4 +94,31 @@ theorem init_inv (cap : Option Nat) : Inv (init cap true) := by
   · simp [init]
   · rfl
 
+/-! ## the byte path through one turn -/
+
+theorem relRec_bytes (x : Ctx) : (relRec x).inq = x.inq ∧ (relRec x).got = x.got ∧ (relRec x).sent = x.sent := by
+  unfold relRec
+  split
+  · exact ⟨rfl, rfl, rfl⟩
+  · split <;> exact ⟨rfl, rfl, rfl⟩
+
+theorem dispatchTail_bytes {s s' : St} (hi : Inv s) {c : Nat} (hc : c ∈ s.reg) (h : dispatchTail s c = .ok s') :
+    (s'.ctx c).inq = (s.ctx c).inq ∧ (s'.ctx c).got = (s.ctx c).got ∧ (s'.ctx c).sent = (s.ctx c).sent := by
+  have hl := live_of_reg hi hc
+  unfold dispatchTail at h
+  simp only [live_ok hl, bind, Except.bind] at h
+  by_cases hf : (s.ctx c).flagClosed
+  · rw [if_pos hf] at h
+    simp only [onClose_spec s c hl, pure, Except.pure] at h
+    injection h with h
+    subst h
+    show ((s.set c _).ctx c).inq = _ ∧ ((s.set c _).ctx c).got = _ ∧ ((s.set c _).ctx c).sent = _
+    rw [set_ctx]
+    exact relRec_bytes _
+  · rw [if_neg hf] at h
+    injection h with h
+    subst h
+    exact ⟨rfl, rfl, rfl⟩
+
+
 end MgProof.C15
